@@ -210,7 +210,8 @@ func (n NodeTypeAccess) marshalCedar(buf *bytes.Buffer) {
 func (n NodeTypeExtensionCall) marshalCedar(buf *bytes.Buffer) {
 	var args []ast.IsNode
 	info := extensions.ExtMap[n.Name]
-	if info.IsMethod {
+	// a method call without its receiver can only be constructed programmatically: render it in function style
+	if info.IsMethod && len(n.Args) > 0 {
 		marshalReceiverNode(n.precedenceLevel(), n.Args[0], buf)
 		buf.WriteRune('.')
 		args = n.Args[1:]
